@@ -366,3 +366,15 @@ mod tests {
         Ok(())
     }
 }
+
+/// Which validator cells are already set (name, namespace, enum symbol, field name); does not
+/// initialise them. For external runtime monitors.
+#[cfg(feature = "verif-hooks")]
+pub fn verif_peek_validators_set() -> [bool; 4] {
+    [
+        NAME_VALIDATOR_ONCE.get().is_some(),
+        NAMESPACE_VALIDATOR_ONCE.get().is_some(),
+        ENUM_SYMBOL_NAME_VALIDATOR_ONCE.get().is_some(),
+        RECORD_FIELD_NAME_VALIDATOR_ONCE.get().is_some(),
+    ]
+}
